@@ -8,6 +8,7 @@ License: Apache-2.0
 """
 
 import math
+import sys
 
 from labella.d3_time import d3_time
 from labella.d3_time import dt2milli
@@ -94,9 +95,13 @@ def d3_scale_niceStep(step):
         def is_multiple(x):
             # x / step is only exact up to rounding: 0.0025 / 2e-05 is
             # 124.99999999999999, so an end point that already is a multiple
-            # of the step must not be pushed out by a further step
+            # of the step must not be pushed out by a further step. The
+            # allowance is a few units in the last place of the quotient: a
+            # fixed relative one (1e-9) swallowed every end point of a domain
+            # narrower than about 1e-8 of its magnitude, which nice() then
+            # left as it was
             q = x / step
-            return abs(q - round(q)) <= 1e-9 * max(1.0, abs(q))
+            return abs(q - round(q)) <= 8 * sys.float_info.epsilon * abs(q)
 
         return {
             "floor": lambda x: x
